@@ -596,7 +596,9 @@ TRANSPARENT = {
     "Option::ok_or_else", "Result::map_err", "Result::inspect_err", "Option::take", "Borrow::borrow",
     "Pin::as_mut", "Pin::get_mut", "Pin::get_unchecked_mut", "Option::unwrap_or", "Option::copied", "Option::cloned",
     "TryFrom::try_from", "TryInto::try_into", "Result::unwrap_or", "Option::map_or", "NonNull::as_ptr",
-    "NonNull::new_unchecked", "NonNull::cast", "pin::pin",
+    "NonNull::new_unchecked", "NonNull::cast", "pin::pin", "slice::get", "slice::get_mut", "Index::index",
+    "IndexMut::index_mut", "Result::ok_or", "const_ptr::cast_mut", "const_ptr::cast", "mut_ptr::cast",
+    "mut_ptr::cast_const", "slice::as_ptr", "slice::as_mut_ptr", "Result::and_then", "Option::and_then", "Result::map", "Option::map", "Option::unwrap_unchecked", "Result::unwrap_unchecked",
 }
 AWAIT_POLL = {"Future::poll"}
 
@@ -701,7 +703,7 @@ class Prov:
         elif k == "bin":
             for a in rv["a"]:
                 roots |= self.of_operand(a)
-            roots.add(("binop", rv["op"]))
+            roots.add(("binop", rv["op"].replace("WithOverflow", "")))
         elif k in ("ref", "rawptr", "discr"):
             roots |= self.of_place(rv["place"])
         elif k == "agg":
@@ -736,7 +738,7 @@ class Prov:
             for a in c.args[:1]:
                 roots |= self.of_operand(a)
             return roots
-        roots.add(("call", c.name))
+        roots.add(("call", c.name, c.bb))
         return roots
 
 
